@@ -202,13 +202,17 @@ theorem subAt_u16_pred (i : Nat) (hi : i + 1 < 65536) : subAt .u16 (i + 1) 1 = s
   simp only [subAt, Option.some.injEq]
   omega
 
-theorem subAt_int (a b : Nat) (h : b ≤ a) : subAt .int a b = some (a - b) := by
-  simp only [subAt, h, if_true]
+theorem subV_int (a b : Nat) (h : b ≤ a) : subV .int a b = some (.int (a - b)) := by
+  simp only [subV, h, if_true]
+
+@[simp] theorem subV_u16 (a b : Nat) : subV .u16 a b = (subAt .u16 a b).map .int := rfl
+@[simp] theorem subV_u8 (a b : Nat) : subV .u8 a b = (subAt .u8 a b).map .int := rfl
+@[simp] theorem subV_u32 (a b : Nat) : subV .u32 a b = (subAt .u32 a b).map .int := rfl
 
 /-- the evaluation rules of the interpreter, for `simp` (`subAt` is rewritten by its own lemmas: `simp`'s arithmetic on
 `65536` is expensive) -/
 macro "ir_simp" "[" ls:Lean.Parser.Tactic.simpLemma,* "]" : tactic =>
-  `(tactic| simp [blk, exec, eval, evalList, evalArgs, zero, wrap, binInt, veq, lenV, indexV, appendV, elemsV,
+  `(tactic| simp [blk, exec, eval, evalList, evalArgs, zero, wrap, binInt, veq, lenV, indexV, appendV, elemsV, cmpNeg,
       readLHS, writeLHS, writeAll, getPath, setPath, readSlots, refSlots, errReader, List.replicate, List.filter,
       errClasses, errConsts, List.lookup,
       ParamKind.hasSlot, builtin_rdU8, builtin_rdU16, builtin_rdU32, builtin_rdPeekU16, builtin_rdRead, builtin_insert, builtin_retrieve, $ls,*])
